@@ -41,7 +41,7 @@ RULE = ('plan = client operation (26: every ProxyKmipClient method, and KMIPProx
         'a non-default payload or a failure and the transport plan was not '
         '"whole". Distinct = (operation, version, response digest, '
         'transport kind).')
-PROBES = ['response_value_longer_than_container', 'version_switched_on_the_same_client', 'prior_call_with_all_optional_fields', 'success_returned', 'failure_raised', 'all_cut_offsets',
+PROBES = ['failure_headed_1_0', 'response_value_longer_than_container', 'version_switched_on_the_same_client', 'prior_call_with_all_optional_fields', 'success_returned', 'failure_raised', 'all_cut_offsets',
           'all_split_points', 'reset', 'timeout', 'trailing_bytes',
           'request_accepted_by_server_decoder', 'non_ascii_message',
           'empty_message', 'get_object_roundtrip']
@@ -313,11 +313,12 @@ def build_response(op, ver, ok, p, fail, now=1600000000):
         items += [E(TAG['RESULT_STATUS'], fail['status']),
                   E(TAG['RESULT_REASON'], fail['reason']),
                   T(TAG['RESULT_MESSAGE'], fail['message'])]
+    hv = (1, 0) if (not ok and fail.get('header_1_0')) else ver
     msg = S(TAG['RESPONSE_MESSAGE'],
             S(TAG['RESPONSE_HEADER'],
               S(TAG['PROTOCOL_VERSION'],
-                I(TAG['PROTOCOL_VERSION_MAJOR'], ver[0]),
-                I(TAG['PROTOCOL_VERSION_MINOR'], ver[1])),
+                I(TAG['PROTOCOL_VERSION_MAJOR'], hv[0]),
+                I(TAG['PROTOCOL_VERSION_MINOR'], hv[1])),
               D(TAG['TIME_STAMP'], now), I(TAG['BATCH_COUNT'], 1)),
             S(TAG['BATCH_ITEM'], *items))
     return t.encode(msg)
@@ -703,6 +704,11 @@ def generate(rng, tier, index):
                         'reason': reason, 'message': msg}
         if r.random() < 0.25:
             plan['fail']['no_operation'] = True
+            if r.random() < 0.5:
+                # ... answered, as the PyKMIP server answers whatever it
+                # refuses before parsing (certificate problems, undecodable
+                # requests), under protocol version 1.0 in the header
+                plan['fail']['header_1_0'] = True
     x = r.random()
     if x < 0.25:
         plan['transport'] = {'kind': 'whole'}
@@ -834,6 +840,8 @@ def execute(plan):
                      got=out[2], want=want_fail)
             else:
                 probes['failure_raised'] += 1
+                if plan['fail'].get('header_1_0'):
+                    probes['failure_headed_1_0'] += 1
 
     tr = plan['transport']
     k = tr['kind']
